@@ -151,7 +151,19 @@ fn cli_cases(out: &mut Out, scratch: &str) {
     let broken = "def f(:\n";
     let dir = format!("{scratch}/c09cli");
     let _ = std::fs::create_dir_all(&dir);
-    for (kind, src) in [("formatted", formatted.as_str()), ("unformatted", unformatted), ("broken", broken)] {
+    // near-formatted variants: the smallest differences from the canonical text must be handled like any other
+    let no_final_nl = formatted.trim_end_matches('\n').to_string();
+    let extra_blank = format!("{formatted}\n\n");
+    let trailing_space = formatted.replacen('\n', " \n", 1);
+    let leading_blank = format!("\n{formatted}");
+    let crlf = formatted.replace('\n', "\r\n");
+    let mut variants: Vec<(String, String)> = vec![("formatted".into(), formatted.clone()), ("unformatted".into(), unformatted.to_string()), ("broken".into(), broken.to_string())];
+    for (label, text) in [("no-final-newline", &no_final_nl), ("extra-blank-lines-at-end", &extra_blank), ("trailing-space", &trailing_space), ("leading-blank-line", &leading_blank), ("crlf", &crlf)] {
+        // classified by the library formatter itself, so that the label is right whatever it normalises
+        let kind = match incan::format_source(text) { Ok(f) if f == **text => "formatted", Ok(_) => "unformatted", Err(_) => "broken" };
+        variants.push((format!("{kind}:{label}"), (*text).clone()));
+    }
+    for (kind, src) in variants.iter().map(|(k, t)| (k.as_str(), t.as_str())) {
         for (check, diff) in [(false, false), (true, false), (false, true), (true, true)] {
             let path = format!("{dir}/t.incn");
             std::fs::write(&path, src).expect("write temp");
@@ -162,7 +174,8 @@ fn cli_cases(out: &mut Out, scratch: &str) {
                 Ok(Err(_)) => "exit1",
                 Err(_) => "panic",
             };
-            let file = if after == src { "unchanged" } else if after == formatted { "rewritten-formatted" } else { "rewritten-other" };
+            let canonical = incan::format_source(src).unwrap_or_default();
+            let file = if after == src { "unchanged" } else if after == canonical { "rewritten-formatted" } else { "rewritten-other" };
             out.case(&format!("c09 cli {kind} {check} {diff}"), &format!("{status} {file}"));
         }
     }
